@@ -28,31 +28,31 @@ MCChoices(nd, iss, l) ==
          THEN SetToSeqs(BurstSet(nd, l.h.n)) ELSE {<<>>},
    ack : {IF l.wf THEN l.h.ack ELSE 0}]
 
-MCInit == Init /\ last = [a |-> "Init"]
+MCInit == Init /\ last = [a |-> "Init", i |-> 0]
 
 MCNext ==
   \/ \E i \in 1..Len(Lines) :
        \/ /\ Flavour = "async"
           /\ \E ch \in MCChoices(nodes, issued, Lines[i]) : RecvAsync(Lines[i], ch)
-          /\ last' = [a |-> "Recv", i |-> i, l |-> Lines[i]]
+          /\ last' = [a |-> "Recv", i |-> i]
        \/ /\ Flavour = "sync" /\ Len(jobs) < MaxJobs
           /\ RecvSync(Lines[i])
-          /\ last' = [a |-> "Recv", i |-> i, l |-> Lines[i]]
+          /\ last' = [a |-> "Recv", i |-> i]
   \/ /\ Flavour = "sync" /\ jobs # <<>>
      /\ IF Head(jobs).k = "L"
         THEN /\ \E ch \in MCChoices(nodes, issued, Head(jobs).l) : Pump(ch)
-             /\ last' = [a |-> "PumpL", l |-> Head(jobs).l]
+             /\ last' = [a |-> "PumpL", i |-> Head(jobs).l.id]
         ELSE /\ Pump([id |-> 0, ord |-> <<>>, ack |-> 0])
-             /\ last' = [a |-> "PumpE"]
+             /\ last' = [a |-> "PumpE", i |-> 0]
   \/ \E i \in 1..Len(Calls) :
        LET c == Calls[i] IN
        /\ \/ c.a = "SetChild" /\ CSetChild(c.n, c.c, c.t, c.v, c.ack) /\ (Flavour = "sync" => Len(jobs) < MaxJobs)
           \/ c.a = "UpdateFw" /\ CUpdateFw({c.nids[k] : k \in 1..Len(c.nids)}, <<c.f[1], c.f[2]>>, c.img)
           \/ c.a = "Metric" /\ CMetric(c.b)
        /\ last' = [a |-> "Call", i |-> i]
-  \/ WithPersist /\ StartPersist /\ last' = [a |-> "StartPersist"]
-  \/ WithPersist /\ Tick /\ last' = [a |-> "Tick"]
-  \/ WithPersist /\ StopRestart /\ last' = [a |-> "StopRestart"]
+  \/ WithPersist /\ StartPersist /\ last' = [a |-> "StartPersist", i |-> 0]
+  \/ WithPersist /\ Tick /\ last' = [a |-> "Tick", i |-> 0]
+  \/ WithPersist /\ StopRestart /\ last' = [a |-> "StopRestart", i |-> 0]
 
 MCSpec == MCInit /\ [][MCNext]_mcvars
 Bound == TLCGet("level") <= MaxDepth
@@ -68,8 +68,8 @@ ValidCmd(m) ==
   ELSE KnownTok(m.p) /\ Accept(GwVer, [n |-> m.n, c |-> m.c, cmd |-> m.cmd, ack |-> m.ack, sub |-> m.sub], TokDesc(m.p))
 
 \* the line processed by this step, as a sequence of 0 or 1 lines
-StepLine == IF last'.a = "Recv" /\ Flavour = "async" THEN <<last'.l>>
-            ELSE IF last'.a = "PumpL" THEN <<last'.l>> ELSE <<>>
+StepLine == IF last'.a = "Recv" /\ Flavour = "async" THEN <<Lines[last'.i]>>
+            ELSE IF last'.a = "PumpL" THEN <<Lines[last'.i]>> ELSE <<>>
 IsLineStep == StepLine # <<>>
 \* commands newly queued as jobs in this step (sync flavour)
 NewJobCmds ==
